@@ -164,6 +164,8 @@ class Gen:
                 w += [(1, "varb"), (2, "varbool"), (2, "snap")]
             if "pz" in env["owns"]:
                 w += [(2, "push")]
+            if env["vars"] and [n for n in env["owns"] if n in VEC_OUT + VEC_SIG]:
+                w += [(2, "rdptr")]
             w += [(2, "let")]
         k = rs.weighted(w)
         if k == "asg":
@@ -192,6 +194,11 @@ class Gen:
             return ["snap", name, "b0"]
         if k == "push":
             return ["push", self.vexpr(env), rs.below(2)]
+        if k == "rdptr":
+            # read-pointer idiom: an array element selected by a bare index variable is bound to a name, the variable is
+            # advanced, and only then the element is used (program order: the element of the OLD index)
+            self.nt += 1
+            return ["rdptr", f"t{self.nt}", rs.choice([n for n in env["owns"] if n in VEC_OUT + VEC_SIG]), rs.range(1, 3)]
         self.nt += 1
         name = f"t{self.nt}"
         st = ["let", name, self.vexprh(env, 1)]
@@ -295,7 +302,7 @@ class Gen:
                     donor["owns"].remove(mv)
                     c["owns"].append(mv)
         ctxs = [c for c in ctxs if [o for o in c["owns"] if o not in ("mem", "pz")] or c["owns"]]
-        prog = {"edge": "rising", "ctxs": [], "var_init": {"v0": rs.below(16), "v1": rs.below(16), "w0": rs.below(2), "b0": rs.below(2)}, "pz_noreset": rs.below(3) == 0}
+        prog = {"edge": "rising", "ctxs": [], "var_init": {"v0": rs.below(16), "v1": rs.below(16), "w0": rs.below(2), "b0": rs.below(2), "vi": rs.below(4)}, "pz_noreset": rs.below(3) == 0}
         # targets hoisted with `with cohdl.always:` are combinational: chosen up front so that no combinational
         # context (and no hoisted expression) reads them -> no combinational loops
         hoisted = {}
@@ -492,6 +499,10 @@ def r_block(stmts, ind, out):
                 out.append(f"{pad}{s[1]} @= {r_v(s[2])}")
         elif k == "push":
             out.append(f"{pad}self.pz.push = {r_v(s[1])}" if s[2] else f"{pad}self.pz ^= {r_v(s[1])}")
+        elif k == "rdptr":
+            out.append(f"{pad}{s[1]} = mem[vi]")
+            out.append(f"{pad}vi @= vi + {s[3]}")
+            out.append(f"{pad}{r_name(s[2])} <<= {s[1]}" if r_name(s[2]).startswith("self.") else f"{pad}{s[2]}.next = {s[1]}")
         elif k == "let":
             out.append(f"{pad}{s[1]} = {r_v(s[2])}")
         elif k == "snap":
@@ -532,6 +543,8 @@ def r_block(stmts, ind, out):
 
 def written_vars(stmts, acc):
     for s in stmts:
+        if s[0] == "rdptr":
+            acc.add("vi")
         if s[0] == "var":
             acc.add(s[1])
         elif s[0] == "asg" and s[1][0] == "sig" and not s[3] and s[1][1] in VEC_SIG + BIT_SIG:
@@ -607,6 +620,7 @@ def render(prog, attrs=None):
     L.append(f"        v1 = Variable[Unsigned[4]]({vi['v1']})")
     L.append(f"        w0 = Variable[Bit]({bool(vi['w0'])})")
     L.append(f"        b0 = Variable[bool]({bool(vi.get('b0', 0))})")
+    L.append(f"        vi = Variable[Unsigned[2]]({vi.get('vi', 0)})")
     clk = "std.Clock(self.clk)" if prog["edge"] == "rising" else "std.Clock(self.clk, active_edge=std.Clock.Edge.FALLING)"
     kw = (", attributes=" + repr(attrs)) if attrs else ""
     for c in prog["ctxs"]:
